@@ -206,6 +206,11 @@ type HistCallWire struct {
 	Rebase bool   `json:"rebase"`
 	Filter string `json:"filter"`
 	Match  string `json:"match"`
+	// Rewrite: source files rewritten in place right before this call (the disk
+	// changes between two calls of one process); MtimeNs is the modification
+	// time they get, in nanoseconds since the epoch.
+	Rewrite []TreeFile `json:"rewrite,omitempty"`
+	MtimeNs int64      `json:"mtime_ns,omitempty"`
 }
 
 // ---- glue on the vcheck side --------------------------------------------------
